@@ -67,6 +67,13 @@ def generate(rng, tier):
         cases.append({"op": "find_eps", "f": f, "target": {"kind": "gaussprec", "d": d, "prec": [fb(A[i][j]) for i in range(d) for j in range(d)]},
                       "position": [fb(rng.choice([-2.0, -0.5, 0.0, 0.25, 1.0, 3.0])) for _ in range(d)],
                       "momentum": [fb(rng.choice([-1.5, -0.5, 0.5, 1.0, 2.0])) for _ in range(d)]})
+    # the multi-chain wrapper: every chain must adapt exactly like a stand-alone chain from ITS OWN start point
+    # (start points at very different scales, so the step-size heuristic gives different initial step sizes)
+    for _ in range(6 if tier == "quick" else 40):
+        nc = rng.choice([2, 3, 5])
+        inits = [[fb(rng.choice([0.001, 0.3, 2.0, 40.0, 900.0]) * rng.choice([-1, 1])) for _ in range(2)] for _ in range(nc)]
+        cases.append({"op": "multi", "f": rng.choice(["f32", "f64"]), "inits": inits, "accept": rng.choice([0.6, 0.8, 0.9]),
+                      "seed": str(rng.getrandbits(64)), "n": rng.randint(1, 4), "d": rng.randint(0, 6), "progress": rng.random() < 0.4})
     # ... and on the half-line target, whose log-density is -inf outside x0 > 0 (steps that leave the support)
     for _ in range(24 if tier == "quick" else 240):
         f = rng.choice(["f32", "f64"])
@@ -138,7 +145,7 @@ def tround(f, x):
 def steps(case, out):
     """-> list of (nd, prev_state, alpha_bits, n_alpha, next_state) over all runs; state = [m, eps, eb, h, mu, nd]"""
     res = []
-    if "panic" in out or "timeout" in out or "crash" in out:
+    if "panic" in out or "timeout" in out or "crash" in out or "runs" not in out:
         return res
     for run in out["runs"]:
         prev = run["after_init"]
@@ -176,7 +183,7 @@ def sel(case, out):
 
 
 def coq_term(case, out):
-    if "panic" in out or "timeout" in out or "crash" in out:
+    if "panic" in out or "timeout" in out or "crash" in out or case["op"] == "multi":
         return None
     if case["op"] == "find_eps" and case["target"]["kind"] == "halfline":
         q = lambda b: N.dy(N.bf(b))
@@ -318,6 +325,17 @@ def oracle(case, out):
         return None              # judged over the whole batch in global_check (slow is not wrong, see there)
     if "panic" in out:
         return "NUTS run panicked: " + out["panic"]
+    if case["op"] == "multi":
+        for i, (w, a) in enumerate(zip(out["wrapper"], out["alone"])):
+            if w != a:
+                names = ["m", "eps", "eps_bar", "h_bar", "mu", "n_discard"]
+                j = [k for k in range(6) if w[k] != a[k]][0]
+                val = lambda v, k: v[k] if k in (0, 5) else N.bf(v[k])
+                return ("NUTS with %d chains (%s, n=%d, d=%d): chain %d started at %s ends with %s = %r, a stand-alone chain from the same "
+                        "start point and seed has %r (initial step size / shrinkage point must come from the heuristic at the chain's own "
+                        "start point)" % (len(case["inits"]), "run_progress" if case["progress"] else "run", case["n"], case["d"], i,
+                                          [N.bf(b) for b in case["inits"][i]], names[j], val(w, j), val(a, j)))
+        return None
     if case["op"] == "find_eps":
         eps, margin = find_eps_exact(case)
         got = N.bf(out["eps"])
@@ -399,6 +417,8 @@ def global_check(cases, outs):
 def nontrivial(case, out):
     if case["op"] == "find_eps":
         return True
+    if case["op"] == "multi":
+        return "wrapper" in out and len({w[4] for w in out["wrapper"]}) >= 2      # chains really have different shrinkage points
     if "runs" not in out:
         return False
     if len(case["runs"]) >= 2:
@@ -410,7 +430,7 @@ def nontrivial(case, out):
 def extra(cases, outs, model):
     warm = post = 0
     for c, o in zip(cases, outs):
-        if c["op"] == "find_eps":
+        if c["op"] != "transitions":
             continue
         for (nd, p, a, na, s) in steps(c, o):
             if s[0] <= nd:
@@ -418,11 +438,11 @@ def extra(cases, outs, model):
             else:
                 post += 1
     return {"warmup_transitions": warm, "post_warmup_transitions": post,
-            "interval_checked": sum(len(sel(c, o)[1]) for c, o in zip(cases, outs) if c["op"] != "find_eps"),
-            "multi_run_cases": sum(1 for c in cases if c["op"] != "find_eps" and len(c["runs"]) >= 2),
+            "interval_checked": sum(len(sel(c, o)[1]) for c, o in zip(cases, outs) if c["op"] == "transitions"),
+            "multi_run_cases": sum(1 for c in cases if c["op"] == "transitions" and len(c["runs"]) >= 2),
             "watchdog_inconclusive": [C.abbrev(c) for c, o in zip(cases, outs) if isinstance(o, dict) and "timeout" in o][:5],
             "watchdog_inconclusive_count": sum(1 for o in outs if isinstance(o, dict) and "timeout" in o),
-            "whole_runs_checked": sum(len(whole_runs(o)) for c, o in zip(cases, outs) if c["op"] != "find_eps" and "runs" in o),
+            "whole_runs_checked": sum(len(whole_runs(o)) for c, o in zip(cases, outs) if c["op"] == "transitions" and "runs" in o),
             "find_eps_cases": sum(1 for c in cases if c["op"] == "find_eps"),
             "find_eps_values": sorted({N.bf(o["eps"]) for c, o in zip(cases, outs) if c["op"] == "find_eps" and "eps" in o})}
 
